@@ -16,54 +16,58 @@ theorem mapM_ok_pure {α β ε : Type} (g : α → β) (l : List α) :
 
 /-! ### closed form of the current `Parse` switch -/
 
-/-- the constant trait `t` contributes to the case of value `v` -/
-def caseOne (v : Value) (t : TraitDesc) : List Dyn :=
+/-- the constant trait `t` contributes to the case of value `v`: the constant of its row on the
+line of `v`, unless an earlier parsable trait already contributes that very constant -/
+def caseOne (ts : List TraitDesc) (first : Option Value) (v : Value) (t : TraitDesc) : List Dyn :=
   match t.instanceOf v with
-  | some r => [r.dyn]
+  | some r => if repeatsParseKey {} ts first t r then [] else [r.dyn]
   | none => []
 
 /-- the trait constants in the case of value `v`: one per parsable trait that has a row on the
 line of `v` -/
-def caseConsts (ts : List TraitDesc) (v : Value) : List Dyn :=
-  ((ts.filter (fun t => t.parsable)).map (caseOne v)).flatten
+def caseConsts (ts : List TraitDesc) (first : Option Value) (v : Value) : List Dyn :=
+  ((ts.filter (fun t => t.parsable)).map (caseOne ts first v)).flatten
 
-theorem traitCaseOne_default (j : Nat) (v : Value) (t : TraitDesc) :
-    traitCaseOne {} j v t = .ok (caseOne v t) := by
+theorem traitCaseOne_default (ts : List TraitDesc) (first : Option Value) (j : Nat) (v : Value) (t : TraitDesc) :
+    traitCaseOne {} ts first j v t = .ok (caseOne ts first v t) := by
   unfold traitCaseOne caseOne
   simp only [Bool.false_eq_true, if_false]
-  cases t.instanceOf v <;> rfl
+  cases t.instanceOf v with
+  | none => rfl
+  | some r => simp only []; split <;> rfl
 
-theorem traitCaseConsts_default (ts : List TraitDesc) (j : Nat) (v : Value) :
-    traitCaseConsts {} ts j v = .ok (caseConsts ts v) := by
+theorem traitCaseConsts_default (ts : List TraitDesc) (first : Option Value) (j : Nat) (v : Value) :
+    traitCaseConsts {} ts first j v = .ok (caseConsts ts first v) := by
   unfold traitCaseConsts caseConsts
-  have : traitCaseOne {} j v = fun t => (Except.ok (caseOne v t) : Except GenFailure (List Dyn)) := by
-    funext t; exact traitCaseOne_default j v t
+  have : traitCaseOne {} ts first j v = fun t => (Except.ok (caseOne ts first v t) : Except GenFailure (List Dyn)) := by
+    funext t; exact traitCaseOne_default ts first j v t
   rw [this, mapM_ok_pure]
   rfl
 
 /-- the case the current template renders for value `v` -/
-def caseOf (ts : List TraitDesc) (v : Value) : ParseCase := ⟨Dyn.ofString v.name :: caseConsts ts v, v⟩
+def caseOf (ts : List TraitDesc) (first : Option Value) (v : Value) : ParseCase :=
+  ⟨Dyn.ofString v.name :: caseConsts ts first v, v⟩
 
 theorem parseCases_default (ts : List TraitDesc) (vs : List Value) :
-    parseCases {} ts vs = .ok (vs.map (caseOf ts)) := by
+    parseCases {} ts vs = .ok (vs.map (caseOf ts vs.head?)) := by
   unfold parseCases
-  have : (fun (p : Nat × Value) => (traitCaseConsts {} ts p.1 p.2).map (fun cs => (⟨Dyn.ofString p.2.name :: cs, p.2⟩ : ParseCase)))
-      = fun p => (Except.ok (caseOf ts p.2) : Except GenFailure ParseCase) := by
+  have : (fun (p : Nat × Value) => (traitCaseConsts {} ts vs.head? p.1 p.2).map (fun cs => (⟨Dyn.ofString p.2.name :: cs, p.2⟩ : ParseCase)))
+      = fun p => (Except.ok (caseOf ts vs.head? p.2) : Except GenFailure ParseCase) := by
     funext p
     rw [traitCaseConsts_default]
     rfl
-  show List.mapM (fun (p : Nat × Value) => (traitCaseConsts {} ts p.1 p.2).map (fun cs => (⟨Dyn.ofString p.2.name :: cs, p.2⟩ : ParseCase))) _ = _
+  show List.mapM (fun (p : Nat × Value) => (traitCaseConsts {} ts vs.head? p.1 p.2).map (fun cs => (⟨Dyn.ofString p.2.name :: cs, p.2⟩ : ParseCase))) _ = _
   rw [this, mapM_ok_pure]
   congr 1
   have h2 : ((List.range vs.length).zip vs).map Prod.snd = vs := List.map_snd_zip (by simp)
-  calc List.map (fun p => caseOf ts p.snd) ((List.range vs.length).zip vs)
-      = List.map (caseOf ts) (((List.range vs.length).zip vs).map Prod.snd) := by rw [List.map_map]; rfl
-    _ = List.map (caseOf ts) vs := by rw [h2]
+  calc List.map (fun p => caseOf ts vs.head? p.snd) ((List.range vs.length).zip vs)
+      = List.map (caseOf ts vs.head?) (((List.range vs.length).zip vs).map Prod.snd) := by rw [List.map_map]; rfl
+    _ = List.map (caseOf ts vs.head?) vs := by rw [h2]
 
 /-- what `genFull` returns, in closed form -/
 theorem genFull_ok {o : Options} {f : FileDef} {t : TypeDecl} {g : GenFull} (h : genFull o f t = .ok g) :
     ∃ ts, genTraits {} o t.cols (sortedValues f t.name) = .ok ts ∧
-      g = { base := { genType o f t.name with cases := (sortedValues f t.name).map (caseOf ts) }, traits := ts } ∧
+      g = { base := { genType o f t.name with cases := (sortedValues f t.name).map (caseOf ts (sortedValues f t.name).head?) }, traits := ts } ∧
       hasDupCase g = false := by
   unfold genFull genFullQ at h
   simp only [bind, Except.bind] at h
@@ -417,18 +421,57 @@ theorem stringTry_none (g : GenFull) (s : String) (h : ∀ ty, g.base.parse ⟨t
   obtain ⟨t, _, rfl⟩ := List.mem_map.mp hx
   exact h t.ty
 
-theorem numericTry_none (g : GenFull) (signed : Bool) (x : Int) (h : ∀ ty, g.base.parse ⟨ty, .int x⟩ = none) :
-    numericTry {} g signed x = none := by
+/-- a numeric fallback block fails when the number is no constant of any trait THE BLOCK RANGES
+OVER (the parsable traits of that kind whose type has no unmarshaler of its own for the codec) -/
+theorem numericTry_none_of_list (g : GenFull) (c : Codec) (signed : Bool) (x : Int)
+    (h : ∀ t ∈ g.numericTraits c signed, g.base.parse ⟨t.ty, .int x⟩ = none) :
+    numericTry {} g c signed x = none := by
   unfold numericTry
   apply firstSome_none
   intro y hy
-  obtain ⟨t, _, rfl⟩ := List.mem_map.mp hy
+  obtain ⟨t, ht, rfl⟩ := List.mem_map.mp hy
   simp only []
   generalize wrapTo signed _ x = w
   by_cases hc : w = x
-  · subst hc; simp [h t.ty]
+  · subst hc; simp [h t ht]
   · have : (({} : Quirks).noRangeGuard || w == x) = false := by simp [hc]
     rw [this]; rfl
+
+theorem numericTry_none (g : GenFull) (c : Codec) (signed : Bool) (x : Int) (h : ∀ ty, g.base.parse ⟨ty, .int x⟩ = none) :
+    numericTry {} g c signed x = none :=
+  numericTry_none_of_list g c signed x (fun t _ => h t.ty)
+
+/-- a predicate that implies another and misses one element the other has selects strictly fewer -/
+theorem filter_length_lt {α : Type} (p q : α → Bool) (l : List α) (hpq : ∀ x, p x = true → q x = true)
+    (a : α) (ha : a ∈ l) (hqa : q a = true) (hpa : p a = false) :
+    (l.filter p).length < (l.filter q).length := by
+  induction l with
+  | nil => cases ha
+  | cons x xs ih =>
+    have hle : (xs.filter p).length ≤ (xs.filter q).length := by
+      clear ih ha
+      induction xs with
+      | nil => simp
+      | cons y ys ih2 =>
+        simp only [List.filter_cons]
+        cases hy : p y
+        · cases q y <;> simp <;> omega
+        · rw [hpq y hy]; simp; exact ih2
+    simp only [List.filter_cons]
+    rcases List.mem_cons.mp ha with rfl | ha'
+    · rw [hpa, hqa]; simp; omega
+    · have := ih ha'
+      cases hx : p x
+      · cases q x <;> simp <;> omega
+      · rw [hpq x hx]; simp; exact this
+
+/-- membership in the list a numeric block ranges over -/
+theorem mem_numericTraits {g : GenFull} {c : Codec} {signed : Bool} {t : TraitDesc} :
+    t ∈ g.numericTraits c signed ↔
+      t ∈ g.traits ∧ t.parsable = true ∧ t.fam.isNumeric signed = true ∧ t.fam.implements c = false := by
+  unfold GenFull.numericTraits
+  rw [List.mem_filter]
+  simp [Bool.and_eq_true, and_assoc]
 
 
 end Genum
